@@ -3,7 +3,13 @@ from . import common as C
 
 
 def main():
-    ok, errors, text = C.lake_build(['YaclibModel', 'ymdriver'])
+    ok, errors, text = C.lake_build(['YaclibModel'])
+    if not ok:
+        C.log(text[-3000:])
+    # every driver executable on its own: one broken model must not take the others down
+    import re
+    for name in re.findall(r'^name = "(ymdriver_\w+)"', open(C.LEAN + '/lakefile.toml').read(), re.M):
+        ok, errors, text = C.lake_build([name])
     if not ok:
         C.log(text[-3000:])
         # not fatal for setup: the per-property checks report broken obligations themselves
